@@ -1,2 +1,324 @@
-//! w_splits: world helpers (filled in by the properties that need it).
+//! w_splits: the splits world — real cw4-group + sg-splits + bank on cw-multi-test, an op
+//! language over it, and per-step observations.
 #![allow(dead_code, unused_imports)]
+use crate::chain::{self, App};
+use cosmwasm_std::{coins, to_json_binary, Addr, BankMsg, CosmosMsg, Deps, Empty, MessageInfo};
+use cw4::Member;
+use cw_multi_test::Executor;
+use serde::{Deserialize, Serialize};
+use std::collections::BTreeSet;
+
+/// denoms in ascending string order; model id = index + 1
+pub const DENOMS: [&str; 4] = [
+    "factory/stars1xyz/uaaa",
+    "ibc/C4CFF46FD6DE35CA4CF4CE031E643C8FDC9BA4B99AE598E9B0ED98FE3A2319F9",
+    "ustars",
+    "uusdc",
+];
+pub fn denom_id(ix: usize) -> u64 {
+    ix as u64 + 1
+}
+pub const ADMIN: &str = "admin";
+pub const GADMIN: &str = "gadmin";
+pub const STRANGER: &str = "stranger";
+pub const ADMIN2: &str = "admin2";
+/// placeholder for "the splits contract's own address" in member lists / senders
+pub const SELF: &str = "SELF";
+pub const SELF_ID: u64 = 5;
+
+/// member address strings sort like their ids: m0000 -> 100, m0001 -> 101, ...
+pub fn member_name(i: u64) -> String {
+    format!("m{:04}", i)
+}
+pub fn addr_id(s: &str) -> u64 {
+    match s {
+        ADMIN => 1,
+        GADMIN => 2,
+        STRANGER => 3,
+        ADMIN2 => 4,
+        SELF => SELF_ID,
+        _ if s.starts_with("contract") => SELF_ID,
+        _ if s.starts_with('m') => 100 + s[1..].parse::<u64>().expect("member name"),
+        _ => panic!("no id for address {}", s),
+    }
+}
+
+#[derive(Clone, Debug, Serialize, Deserialize, PartialEq, Eq, PartialOrd, Ord)]
+pub enum Op {
+    Deposit { denom: usize, amt: u128 },
+    UpdateMembers { sender: String, adds: Vec<(String, u64)>, rems: Vec<String> },
+    UpdateAdmin { sender: String, new_admin: Option<String> },
+    Distribute { sender: String, denoms: Option<Vec<usize>> },
+}
+
+#[derive(Clone, Copy, Debug, Serialize, Deserialize, PartialEq, Eq, PartialOrd, Ord)]
+pub enum Mode {
+    /// splits instantiated over an already existing group (checked at instantiate)
+    Existing,
+    /// splits instantiates the group itself and learns its address in the reply
+    Reply,
+}
+
+#[derive(Clone, Debug, Serialize, Deserialize, PartialEq, Eq, PartialOrd, Ord)]
+pub struct Hist {
+    pub mode: Mode,
+    pub admin: Option<String>,
+    pub gadmin: Option<String>,
+    pub members: Vec<(String, u64)>,
+    pub ops: Vec<Op>,
+}
+
+pub struct World {
+    pub app: App,
+    pub splits: Addr,
+    pub group: Addr,
+}
+
+pub fn resolve(s: &str, me: &str) -> String {
+    if s == SELF {
+        me.to_string()
+    } else {
+        s.to_string()
+    }
+}
+
+fn members_msg(ms: &[(String, u64)], me: &str) -> Vec<Member> {
+    ms.iter().map(|(a, w)| Member { addr: resolve(a, me), weight: *w }).collect()
+}
+
+/// group first, then splits over its address.  Err(stage) tells which instantiate failed.
+pub fn instantiate_existing(
+    admin: &Option<String>,
+    gadmin: &Option<String>,
+    members: &[(String, u64)],
+) -> Result<World, &'static str> {
+    let mut app = chain::new_app();
+    let gcode = app.store_code(chain::cw4_group());
+    let scode = app.store_code(chain::splits());
+    let me = "contract1";
+    let gmsg = cw4_group::msg::InstantiateMsg { admin: gadmin.clone(), members: members_msg(members, me) };
+    let group = match crate::util::catch(|| {
+        app.instantiate_contract(gcode, Addr::unchecked("creator"), &gmsg, &[], "group", None)
+    }) {
+        Ok(Ok(a)) => a,
+        _ => return Err("group"),
+    };
+    let smsg = sg_splits::msg::InstantiateMsg {
+        admin: admin.clone(),
+        group: sg_splits::msg::Group::Cw4Address(group.to_string()),
+    };
+    let splits = match crate::util::catch(|| {
+        app.instantiate_contract(scode, Addr::unchecked("creator"), &smsg, &[], "splits", Some(ADMIN.to_string()))
+    }) {
+        Ok(Ok(a)) => a,
+        _ => return Err("splits"),
+    };
+    assert_eq!(splits.as_str(), me);
+    Ok(World { app, splits, group })
+}
+
+/// splits instantiates the group through a submessage + reply (no group checks on this path)
+pub fn instantiate_reply(
+    admin: &Option<String>,
+    gadmin: &Option<String>,
+    members: &[(String, u64)],
+) -> Result<World, &'static str> {
+    let mut app = chain::new_app();
+    let gcode = app.store_code(chain::cw4_group());
+    let scode = app.store_code(chain::splits());
+    let me = "contract0";
+    let gmsg = cw4_group::msg::InstantiateMsg { admin: gadmin.clone(), members: members_msg(members, me) };
+    let smsg = sg_splits::msg::InstantiateMsg {
+        admin: admin.clone(),
+        group: sg_splits::msg::Group::Cw4Instantiate(sg_controllers::ContractInstantiateMsg {
+            code_id: gcode,
+            msg: to_json_binary(&gmsg).unwrap(),
+            admin: Some(sg_controllers::Admin::Creator {}),
+            label: "group".to_string(),
+        }),
+    };
+    let splits = match crate::util::catch(|| {
+        app.instantiate_contract(scode, Addr::unchecked("creator"), &smsg, &[], "splits", Some(ADMIN.to_string()))
+    }) {
+        Ok(Ok(a)) => a,
+        _ => return Err("splits"),
+    };
+    assert_eq!(splits.as_str(), me);
+    let group: Addr = app.wrap().query_wasm_smart(&splits, &sg_splits::msg::QueryMsg::Group {}).map_err(|_| "group-query")?;
+    Ok(World { app, splits, group })
+}
+
+impl World {
+    pub fn me(&self) -> String {
+        self.splits.to_string()
+    }
+    /// what the group itself says (not through splits): all members, paging until exhausted
+    pub fn group_members(&self) -> Vec<(String, u64)> {
+        let mut out: Vec<(String, u64)> = vec![];
+        loop {
+            let start_after = out.last().map(|(a, _)| a.clone());
+            let r: cw4::MemberListResponse = self
+                .app
+                .wrap()
+                .query_wasm_smart(&self.group, &cw4_group::msg::QueryMsg::ListMembers { start_after, limit: Some(30) })
+                .unwrap();
+            let n = r.members.len();
+            out.extend(r.members.into_iter().map(|m| (m.addr, m.weight)));
+            if n < 30 {
+                break;
+            }
+        }
+        out
+    }
+    pub fn group_total(&self) -> u64 {
+        let r: cw4::TotalWeightResponse =
+            self.app.wrap().query_wasm_smart(&self.group, &cw4_group::msg::QueryMsg::TotalWeight { at_height: None }).unwrap();
+        r.weight
+    }
+    /// splits' own ListMembers with the 30-entry page the contract uses
+    pub fn splits_page(&self) -> Vec<(String, u64)> {
+        let r: cw4::MemberListResponse = self
+            .app
+            .wrap()
+            .query_wasm_smart(&self.splits, &sg_splits::msg::QueryMsg::ListMembers { start_after: None, limit: Some(30) })
+            .unwrap();
+        r.members.into_iter().map(|m| (m.addr, m.weight)).collect()
+    }
+    pub fn splits_admin(&self) -> Option<String> {
+        let r: cw_controllers::AdminResponse =
+            self.app.wrap().query_wasm_smart(&self.splits, &sg_splits::msg::QueryMsg::Admin {}).unwrap();
+        r.admin
+    }
+    pub fn bal(&self, who: &str, denom_ix: usize) -> u128 {
+        chain::balance(&self.app, who, DENOMS[denom_ix])
+    }
+    /// call execute_distribute itself on the current chain state (it takes `Deps`, so it
+    /// cannot write): the exact message list the handler returns
+    pub fn handler_distribute(&self, sender: &str, denoms: &Option<Vec<usize>>) -> Result<Vec<(String, usize, u128)>, String> {
+        let st = self.app.contract_storage(&self.splits);
+        let deps = Deps { storage: &*st, api: self.app.api(), querier: self.app.wrap() };
+        let mut env = cosmwasm_std::testing::mock_env();
+        env.contract.address = self.splits.clone();
+        env.block = self.app.block_info();
+        let info = MessageInfo { sender: Addr::unchecked(sender), funds: vec![] };
+        let dl = denoms.as_ref().map(|v| v.iter().map(|i| DENOMS[*i].to_string()).collect::<Vec<_>>());
+        let r = crate::util::catch(|| sg_splits::contract::execute_distribute(deps, env, info, dl));
+        match r {
+            Ok(Ok(resp)) => {
+                let mut out = vec![];
+                for sm in &resp.messages {
+                    match &sm.msg {
+                        CosmosMsg::Bank(BankMsg::Send { to_address, amount }) if amount.len() == 1 => {
+                            let ix = DENOMS.iter().position(|d| *d == amount[0].denom).ok_or("unknown denom")?;
+                            out.push((to_address.clone(), ix, amount[0].amount.u128()));
+                        }
+                        other => return Ok(vec![(format!("UNCLASSIFIED {:?}", other), 0, 0)]),
+                    }
+                }
+                Ok(out)
+            }
+            Ok(Err(e)) => Err(e.to_string()),
+            Err(p) => Err(p),
+        }
+    }
+    pub fn apply(&mut self, op: &Op) -> Result<(), String> {
+        let me = self.me();
+        match op {
+            Op::Deposit { denom, amt } => {
+                if *amt == 0 {
+                    return Ok(());
+                }
+                chain::mint_coins(&mut self.app, &me, *amt, DENOMS[*denom]);
+                Ok(())
+            }
+            Op::UpdateMembers { sender, adds, rems } => {
+                let msg = cw4_group::msg::ExecuteMsg::UpdateMembers {
+                    remove: rems.iter().map(|r| resolve(r, &me)).collect(),
+                    add: members_msg(adds, &me),
+                };
+                let group = self.group.clone();
+                chain::exec(&mut self.app, &resolve(sender, &me), &group, &msg, &[]).map(|_| ())
+            }
+            Op::UpdateAdmin { sender, new_admin } => {
+                let msg = sg_splits::msg::ExecuteMsg::UpdateAdmin { admin: new_admin.clone() };
+                let splits = self.splits.clone();
+                chain::exec(&mut self.app, &resolve(sender, &me), &splits, &msg, &[]).map(|_| ())
+            }
+            Op::Distribute { sender, denoms } => {
+                let msg = sg_splits::msg::ExecuteMsg::Distribute {
+                    denom_list: denoms.as_ref().map(|v| v.iter().map(|i| DENOMS[*i].to_string()).collect()),
+                };
+                let splits = self.splits.clone();
+                chain::exec(&mut self.app, &resolve(sender, &me), &splits, &msg, &[]).map(|_| ())
+            }
+        }
+    }
+}
+
+/// every address named anywhere in a history (members ever present, senders, admins), plus
+/// the fixed roles; the contract itself is added by the caller
+pub fn accounts_of(h: &Hist) -> Vec<String> {
+    let mut s: BTreeSet<String> = BTreeSet::new();
+    for r in [ADMIN, GADMIN, STRANGER, ADMIN2] {
+        s.insert(r.to_string());
+    }
+    for (a, _) in &h.members {
+        s.insert(a.clone());
+    }
+    for op in &h.ops {
+        match op {
+            Op::UpdateMembers { sender, adds, rems } => {
+                s.insert(sender.clone());
+                for (a, _) in adds {
+                    s.insert(a.clone());
+                }
+                for a in rems {
+                    s.insert(a.clone());
+                }
+            }
+            Op::UpdateAdmin { sender, new_admin } => {
+                s.insert(sender.clone());
+                if let Some(a) = new_admin {
+                    s.insert(a.clone());
+                }
+            }
+            Op::Distribute { sender, .. } => {
+                s.insert(sender.clone());
+            }
+            Op::Deposit { .. } => {}
+        }
+    }
+    s.remove(SELF);
+    s.into_iter().collect()
+}
+
+// ---- Coq printing ----
+pub fn coq_member(a: &str, w: u64) -> String {
+    format!("mkMember {} {}", addr_id(a), w)
+}
+pub fn coq_members(ms: &[(String, u64)]) -> String {
+    crate::util::coq_list(&ms.iter().map(|(a, w)| coq_member(a, *w)).collect::<Vec<_>>())
+}
+pub fn coq_opt_addr(a: &Option<String>) -> String {
+    crate::util::coq_opt_n(a.as_ref().map(|s| addr_id(s)))
+}
+pub fn coq_op(op: &Op) -> String {
+    match op {
+        Op::Deposit { denom, amt } => format!("Deposit {} {}", denom_id(*denom), amt),
+        Op::UpdateMembers { sender, adds, rems } => format!(
+            "UpdateMembers {} {} {}",
+            addr_id(sender),
+            coq_members(adds),
+            crate::util::coq_list(&rems.iter().map(|r| addr_id(r).to_string()).collect::<Vec<_>>())
+        ),
+        Op::UpdateAdmin { sender, new_admin } => format!("UpdateAdmin {} {}", addr_id(sender), coq_opt_addr(new_admin)),
+        Op::Distribute { sender, denoms } => format!(
+            "Distribute {} {}",
+            addr_id(sender),
+            match denoms {
+                None => "None".to_string(),
+                Some(v) => format!("(Some {})", crate::util::coq_list(&v.iter().map(|i| denom_id(*i).to_string()).collect::<Vec<_>>())),
+            }
+        ),
+    }
+}
